@@ -416,7 +416,9 @@ def split_prove(ctx, claims, what, timeout_ms=None):
                     r = z3.unknown
             if str(r) == "unknown":
                 ctx.stats.queries += 1
-                if prove_nra(ctx.solver.assertions(), core.zb(s_not(cl)), timeout_ms=240000) == "unsat":
+                # (nlsat's time on these varies by more than 10x between obligations and with machine load: measured 23 s - 380 s
+                # for the four cells of one depth-3 network while 16 other solver processes were running)
+                if prove_nra(ctx.solver.assertions(), core.zb(s_not(cl)), timeout_ms=1200000) == "unsat":
                     r = z3.unsat
         if r == z3.unsat:
             ctx.stats.discharged += 1
